@@ -1809,6 +1809,25 @@ std::string expression_t::str(bool old) const
     return os.str();
 }
 
+/**
+ * The symbol of the function that a call expression calls: the callee
+ * itself or, for a call through a process (P.f() in a query), the
+ * member f of the template of P. Empty if the callee names nothing.
+ */
+static symbol_t called_function(const expression_t& call)
+{
+    const expression_t callee = call.get(0);
+    if (callee.get_kind() == DOT) {
+        symbol_t process = callee.get(0).get_symbol();
+        if (process != symbol_t() && process.get_type().is_process() && process.get_data() != nullptr) {
+            const auto* instance = static_cast<const instance_t*>(process.get_data());
+            if (instance->templ != nullptr && callee.get_index() < instance->templ->frame.get_size())
+                return instance->templ->frame[callee.get_index()];
+        }
+    }
+    return callee.get_symbol();
+}
+
 void expression_t::collect_possible_writes(set<symbol_t>& symbols) const
 {
     function_t* fun;
@@ -1842,7 +1861,7 @@ void expression_t::collect_possible_writes(set<symbol_t>& symbols) const
     case FUN_CALL:
     case FUN_CALL_EXT:
         // Add all symbols which are changed by the function
-        symbol = get(0).get_symbol();  // empty when the callee is not a name, e.g. (-f)(a)
+        symbol = called_function(*this);  // empty when the callee is not a name, e.g. (-f)(a)
         if (symbol != symbol_t() && (symbol.get_type().is_function() || symbol.get_type().is_function_external()) &&
             symbol.get_data()) {
             fun = (function_t*)symbol.get_data();
@@ -1876,7 +1895,7 @@ void expression_t::collect_possible_reads(set<symbol_t>& symbols, bool collectRa
 
     case FUN_CALL: {
         // Add all symbols which are used by the function
-        auto symbol = get(0).get_symbol();
+        auto symbol = called_function(*this);
         if (symbol == symbol_t())  // the callee is not a name, e.g. (-f)(a)
             break;
         if (auto type = symbol.get_type(); type.is_function() || type.is_function_external()) {
